@@ -114,6 +114,24 @@ def random_state(ctx, gm, model, qntot, mmax=None, allow_product=True):
             mps = mps.add(other)
         ctx.cls("state:product-sum" if k > 1 else "state:product")
     mps.compress_config.bond_dim_max_value = 10 ** 6
+    if rng.random() < 0.35:
+        complexify(rng, mps)
+        ctx.cls("state:complex-amplitudes")
+    return mps
+
+
+def complexify(rng, mps):
+    """Give the state genuinely complex amplitudes: a random diagonal phase per physical basis state and site
+    (a charge-neutral local unitary, so the sector and the bond labels stay valid)."""
+    mps.to_complex(inplace=True)
+    for i in range(mps.site_num):
+        a = np.array(mps[i].array, dtype=complex)
+        ph = np.exp(1j * rng.uniform(0, 2 * np.pi, size=a.shape[1]))
+        if a.ndim == 3:
+            a = a * ph[None, :, None]
+        else:
+            a = a * ph[None, :, None, None]
+        mps[i] = a
     return mps
 
 
